@@ -15,7 +15,9 @@ import time
 from lib import driver as D
 
 CHUNK = 40000          # events per TLC run, cut at evaluation-block boundaries
-TWINS = {"C06": "andFalseNeedsBoth"}
+TWINS = {"C06": "andFalseNeedsBoth", "C05": "intDecimalNoPromote", "C08": "addIsSub", "C14": "byteLength"}
+# value laws (eqval/cmpval C05, arith C08, strfn C14): the node whose logged outcome the binding probe corrupts
+VALUE_PROBE = {"C05": ("Equality", "eqval"), "C08": ("Arithmetic", "arith"), "C14": ("Function", "strfn")}
 
 
 def record_repo_tests(ctx, out):
@@ -50,8 +52,17 @@ def split_blocks(path, ctx):
     return parts, total
 
 
+def with_values(ctx, path):
+    """harness/cmd/ntvals: the System values the hook spells become abstract items of the specification (FPValues)."""
+    if not getattr(ctx, "ntvals_bin", None):
+        ctx.ntvals_bin = D.build_harness(ctx, "ntvals")
+    out = path + ".vals"
+    D.run_harness(ctx, ctx.ntvals_bin, [path, out])
+    return out
+
+
 def judge_trace(ctx, path, mutant="none", tag="nodetrace"):
-    parts, total = split_blocks(path, ctx)
+    parts, total = split_blocks(with_values(ctx, path), ctx)
     d = D.stage_spec(ctx)
     cfg = "FPNodeTrace_%s.cfg" % mutant
     with open(os.path.join(d, cfg), "w") as f:
@@ -85,6 +96,18 @@ def machine_rerun(ctx):
     return []
 
 
+def sample_cases(ctx, path, limit):
+    """Every k-th line of a case file, so that the traced re-run stays within the tier's budget (the full file has been
+    replayed and judged by the check itself; the trace adds the node-level view of a spread of it)."""
+    lines = open(path).read().splitlines()
+    k = max(1, -(-len(lines) // limit))
+    out = ctx.path("nt_cases_sample.ndjson")
+    with open(out, "w") as f:
+        f.write("\n".join(lines[ctx.seed % k::k]) + "\n")
+    ctx.extra["node_trace_cases_rerun"] = len(lines[ctx.seed % k::k])
+    return out
+
+
 def extend(ctx, verdicts, by_id, reruns=(), repo_tests=True):
     """Record and judge node-level traces; append the verdicts charged to ctx.prop.  `reruns` is a list of
     (harness binary, argument list) to execute again with tracing on."""
@@ -116,6 +139,8 @@ def extend(ctx, verdicts, by_id, reruns=(), repo_tests=True):
         else:
             raise D.Inconclusive("node trace: the wrong variant %s of the reference tables is not noticed on this trace (the trace does not exercise the law)" % twin)
     binding_probe(ctx, trace)
+    if ctx.prop in VALUE_PROBE:
+        value_probe(ctx, trace, *VALUE_PROBE[ctx.prop])
     ctx.nodetrace_evals = total // 2
     return verdicts + out
 
@@ -155,3 +180,49 @@ def binding_probe(ctx, trace):
     if not any(v["law"] == "k3" and v["line"] == victim + 1 for v in vs):
         raise D.Inconclusive("node trace: a flipped Boolean outcome was not reported by the k3 law")
     ctx.extra["node_trace_with_a_flipped_outcome_reported"] = True
+
+
+def value_probe(ctx, trace, kind, law):
+    """The binding of the value laws demonstrated: the logged outcome of one node of `kind` whose operands are logged values
+    is altered (a Boolean flipped, an Integer moved by one); exactly that event must be reported under `law`."""
+    lines = []
+    with open(trace) as f:
+        for line in f:
+            lines.append(line)
+            if len(lines) >= 20000 and line.startswith('{"cls"') and '"d":1,' in line:
+                break
+    opened, kids, victim = {}, {}, None
+    for i, line in enumerate(lines):
+        r = json.loads(line)
+        d = r["d"]
+        if r["e"] == "B":
+            opened[d] = r
+            kids[d] = []
+            continue
+        b = opened.get(d, {})
+        kids.setdefault(d - 1, []).append(r)
+        mine = kids.get(d, [])
+        valued = lambda vs, t: len(vs) == 1 and vs[0].split(":")[0] in t
+        if b.get("k") != kind or not r["ok"] or len(r.get("outv", [])) != 1:
+            continue
+        if kind == "Equality" and r["cls"] in ("T", "F") and len(mine) == 2 and all(k["ok"] and valued(k["outv"], ("Integer", "Decimal", "String", "Boolean")) for k in mine):
+            r["cls"] = "F" if r["cls"] == "T" else "T"
+        elif kind == "Arithmetic" and r["hi"] and abs(r["iv"]) < 1000000 and len(mine) == 2 and all(k["ok"] and valued(k["outv"], ("Integer",)) for k in mine):
+            r["iv"] += 1
+            r["outv"] = ["Integer:%d" % r["iv"]]
+        elif kind == "Function" and b.get("p") == "Length" and r["hi"] and valued(b.get("inv", []), ("String",)):
+            r["iv"] += 1
+            r["outv"] = ["Integer:%d" % r["iv"]]
+        else:
+            continue
+        victim = i
+        lines[i] = json.dumps(r, separators=(",", ":")) + "\n"
+        break
+    if victim is None:
+        raise D.Inconclusive("node trace: no %s node with logged operand values in the first %d events (the value law %s is not exercised)" % (kind, len(lines), law))
+    path = ctx.path("nt_probe_value.ndjson")
+    open(path, "w").writelines(lines)
+    vs, _ = judge_trace(ctx, path, tag="nodetrace-probe-value")
+    if not any(v["law"] == law and v["line"] == victim + 1 for v in vs):
+        raise D.Inconclusive("node trace: an altered %s outcome was not reported by the %s law" % (kind, law))
+    ctx.extra["node_trace_with_an_altered_value_reported"] = law
